@@ -505,3 +505,32 @@ Theorem c19_engine_real_len_estimate_partial :
 Proof. exact run_plan_concrete_real_eq. Qed.
 Print Assumptions c19_engine_on_model_types_refines_indexed_engine. Print Assumptions c19_index_field_entries.
 Print Assumptions c19_engine_on_model_types_row_order_refuted. Print Assumptions c19_engine_real_len_estimate_partial.
+
+(* ================= CRelNoIndex: the shard lock of the concurrent insert (Index/NoIndexRace.v) =================
+   The concurrency theorems above take `self.vec[shard].write().push(value)` as one atomic step.  NoIndexRace.v opens the step
+   (read the length; store the value in that slot and set the length) and states what the lock buys. *)
+From AV Require Import Index.NoIndexRace.
+
+(* with the lock held (the two halves adjacent) the opened push IS the atomic step cni_insert of the theorems above *)
+Theorem c19_cni_push_locked_is_insert : forall t v c,
+  ConcIndex.steps rstep_run (push_steps t v) (c, []) = IndexModel.bind (cni_insert t v c) (fun c' => IndexModel.Ok (c', [])).
+Proof. exact push_locked_is_insert. Qed.
+
+(* without the lock "concurrent inserts are all retained" FAILS as soon as two threads share a shard (here workers 0 and 2 filling
+   an index created inside a pool of 2): there is an interleaving of the two opened pushes after which only one value is stored *)
+Theorem c19_cni_push_unlocked_shared_shard_refuted :
+  exists sch st, interleave [push_steps 0 7; push_steps 2 8] sch /\
+    ConcIndex.steps rstep_run sch (cni_default 2, []) = IndexModel.Ok st /\ cni_abs (fst st) = [8] /\ snd st = [].
+Proof. exact push_unlocked_shared_shard_refuted. Qed.
+
+(* all 70 interleavings of two threads x two pushes, 2 shards: own shards -> every schedule retains all four values;
+   shared shard -> exactly the 6 schedules the lock allows retain them, the other 64 lose at least one *)
+Example c19_cni_push_unlocked_bounded :
+  length (interleavings (thread_steps 0 [1; 2]) (thread_steps 1 [3; 4])) = 70%nat /\
+  forallb (retains 2 [1; 2; 3; 4]) (interleavings (thread_steps 0 [1; 2]) (thread_steps 1 [3; 4])) = true /\
+  NoIndexRace.count (fun s => match run_unlocked 2 s with IndexModel.Ok l => Nat.eqb (length l) 4 | _ => false end)
+        (interleavings (thread_steps 0 [1; 2]) (thread_steps 2 [3; 4])) = 6%nat /\
+  NoIndexRace.count (fun s => match run_unlocked 2 s with IndexModel.Ok l => Nat.ltb (length l) 4 | _ => false end)
+        (interleavings (thread_steps 0 [1; 2]) (thread_steps 2 [3; 4])) = 64%nat.
+Proof. exact push_unlocked_bounded. Qed.
+Print Assumptions c19_cni_push_locked_is_insert. Print Assumptions c19_cni_push_unlocked_shared_shard_refuted. Print Assumptions c19_cni_push_unlocked_bounded.
